@@ -184,6 +184,43 @@ func allStrings(alphabet []rune, maxLen int, f func(string) bool) {
 	rec(nil)
 }
 
+// c15FlagPairs: two lookups selected by one feature, all pairs of lookup flags (incl. equal flag words
+// with different mark filtering sets): each lookup is applied under its own flags, on a Layouter that is
+// reused for all strings.
+func c15FlagPairs(r *run.Run) {
+	alphabet := []rune{'A', 'B', 'M', 'N', 'L'}
+	lookups := []int{5, 7} // GSUB4 AAA->X AA->Y AB->L; GSUB4 AM->X A->Y
+	r.Explore(explore.Config{Name: "C15.flag-pairs"},
+		fmt.Sprintf("Layouter.Layout on a font with GDEF classes, attachment classes and two mark sets and two ligature lookups under the liga feature: ALL pairs of lookup flags from the %d-entry flag menu x 2 x 2 lookups, on all strings of length <= 4 over {A,B,M,N,L} laid out with one reused Layouter: equals the reference pipeline", len(gen.Flags)),
+		func(c *explore.Ctx) {
+			f1 := gen.Flags[c.Choose(len(gen.Flags), "flags of the first lookup")]
+			f2 := gen.Flags[c.Choose(len(gen.Flags), "flags of the second lookup")]
+			l1 := gen.GsubSimple[lookups[c.Choose(len(lookups), "first lookup")]]
+			l2 := gen.GsubSimple[lookups[c.Choose(len(lookups), "second lookup")]]
+			f := c19Font(true)
+			f.Gdef, _ = gen.Gdef(0)
+			f.Gsub = gsubInfo("liga", gen.MakeLookup(l1.Type, f1, l1.Sub()), gen.MakeLookup(l2.Type, f2, l2.Sub()))
+			desc := fmt.Sprintf("%s %s; %s %s", l1.Name, f1.Name, l2.Name, f2.Name)
+			c.Sample(func() any { return desc })
+			c.Nontrivial()
+			c.Outcome(desc)
+			lay, err := f.NewLayouter(language.Und, nil, nil)
+			if err != nil {
+				c.Fail("C15.layouter", "NewLayouter", "NewLayouter fails: %v", err)
+				return
+			}
+			allStrings(alphabet, 4, func(s string) bool {
+				got := append([]glyph.Info{}, lay.Layout(s)...)
+				want := refLayout(f, s, language.Und, nil, nil)
+				if !infosEqual(got, want) {
+					c.Fail("C15.layout", "flag pairs", "Layout(%q): [%s], reference pipeline: [%s]; lookups %s", s, fmtInfos(got), fmtInfos(want), desc)
+					return false
+				}
+				return true
+			})
+		})
+}
+
 func c15Layout(r *run.Run) {
 	alphabet := []rune{'f', 'i', 'A', 'B', 'Z', 0x1F600}
 	maxLen := 3
@@ -637,6 +674,7 @@ func init() {
 		c15Ligatures(r)
 		c15FindLookups(r)
 		c15Kern(r)
+		c15FlagPairs(r)
 		c15MapOrderFind(r)
 		c15MapOrder(r)
 		c15Layout(r)
